@@ -93,6 +93,11 @@ static void judge_ledger(const Plan& p, const OpResult& o, std::vector<Violation
     bool exceptional = o.out.exc != 0;
     if (!exceptional && r.live_after != 0)
         vs.push_back(make_violation("C14", "value_leaked", std::to_string(r.live_after) + " object(s) still alive after the call returned and its result was dropped" + counts + "; " + brief, p));
+    // a call that leaves by exception is a call that failed: what it created must be gone when the exception has left it
+    // (round 0 only observed this; it has held on every one of the ~10^5 exceptional exits per batch, and S45 shows what
+    // not gating it lets through)
+    if (exceptional && o.out.exc != 2 && r.live_after != 0)
+        vs.push_back(make_violation("C14", "value_leaked_on_exception", std::to_string(r.live_after) + " object(s) still alive after the call was left by an exception (exc kind " + std::to_string(o.out.exc) + ")" + counts + "; " + brief, p));
     if (cx.st)
     {
         Stats& st = *cx.st;
